@@ -356,3 +356,45 @@ def gs1_raises(ctx, st, exc):
 
 
 UNITS.append(Unit("C17", "jsonargparse._actions:_ActionSubCommands.get_subcommand", gs1_setup, gs1_post, gs1_raises, trusted=["get_subcommands: its own unit"]))
+
+
+# ------------------------------------------------------------------------------------- default_env (setter): the setting reaches every level of the subcommand tree
+def de_setup(ctx):
+    osenv = ["", "true", "false", "yes"][ctx.choose(4, "JSONARGPARSE_DEFAULT_ENV")]
+    given = [True, False, "not-a-bool"][ctx.choose(3, "value-given")]
+    has_sub = ctx.choose(2, "has-subcommands") == 1
+    subs = [Rec(f"ArgumentParser(sub{i})", attrs={}) for i in range(2)]
+    for sp in subs:
+        sp.methods["__setattr__"] = lambda c, s_, a, k: c.event("sub-set", s_, a[0], a[1])
+    self = Rec("ArgumentParser", attrs={"_default_env": z3.Bool("before"), "_subcommands_action": Rec("action", attrs={"_name_parser_map": {"a": subs[0], "b": subs[1]}}) if has_sub else None})
+    calls = {"os.getenv": lambda c, a, k: osenv.upper() if osenv == "true" else osenv}
+    return Setup(env={"self": self, "default_env": given}, calls=calls, data=dict(osenv=osenv, given=given, has_sub=has_sub, subs=subs, self_=self))
+
+
+def de_effective(d):
+    if d["osenv"] in ("true", "false"):
+        return d["osenv"] == "true"
+    return d["given"] if isinstance(d["given"], bool) else None
+
+
+def de_post(ctx, st, result):
+    d = st.data
+    eff = de_effective(d)
+    tag = f"[env var={d['osenv']!r},given={d['given']!r}{',subcommands' if d['has_sub'] else ''}]"
+    ctx.oblige("post", "accepted=>a-boolean-was-given(or the environment variable decides)" + tag, eff is not None)
+    ctx.oblige("post", "the-parser's-setting-is-the-value-given,unless-JSONARGPARSE_DEFAULT_ENV-says-true/false" + tag, d["self_"].attrs["_default_env"] is eff)
+    sets = [e for e in ctx.events if e[0] == "sub-set"]
+    if d["has_sub"]:
+        ctx.oblige("post", "every-subcommand-parser-gets-the-same-setting-through-its-own-default_env(which hands it on to the levels below: the whole tree follows)" + tag,
+                   [(e[1], e[2], e[3]) for e in sets] == [(sp, "default_env", eff) for sp in d["subs"]])
+    else:
+        ctx.oblige("post", "no-subcommands=>nothing-else-is-set" + tag, not sets)
+
+
+def de_raises(ctx, st, exc):
+    d = st.data
+    ctx.oblige("raises", f"ValueError-exactly-for-a-non-boolean-when-the-environment-variable-does-not-decide(got {exc.cls})", exc.cls == "ValueError" and de_effective(d) is None)
+
+
+UNITS.append(Unit("C17", "jsonargparse._core:ArgumentParser.default_env", de_setup, de_post, de_raises, label="setter", expect_cover=("return", "raise:ValueError"),
+                  trusted=["assigning subparser.default_env runs this same setter on the sub-parser (induction over the depth of the subcommand tree)"]))
